@@ -666,6 +666,8 @@ impl G {
                 let _ = writeln!(src, "pub enum {name} {{");
                 for (ident, vattrs, _, fs) in &variants {
                     src.push_str(&self.attr_lines(vattrs, "    "));
+                    // one variant in ten is written as a raw identifier (same name, `r#` is not part of it)
+                    let ident = if !plain && self.rng.chance(1, 10) { format!("r#{ident}") } else { ident.clone() };
                     match fs {
                         None => {
                             let _ = writeln!(src, "    {ident},");
@@ -770,6 +772,7 @@ impl G {
                     if let Some(r) = rename {
                         let _ = writeln!(src, "    #[deserr(rename = \"{r}\")]");
                     }
+                    let ident = if !plain && self.rng.chance(1, 10) { format!("r#{ident}") } else { ident.clone() };
                     let _ = writeln!(src, "    {ident},");
                 }
                 src.push_str("}\n");
